@@ -10,6 +10,7 @@ package main
 
 import (
 	"fmt"
+	"os"
 
 	"verif/internal/gitx"
 	"verif/internal/vf"
@@ -31,6 +32,10 @@ func run(c *vf.Ctx) {
 			replay["wire"] = vf.Q(res.wire)
 			c.Fail(res.failKey, res.msg+": "+res.failWhat, replay)
 		}
+	}
+	if os.Getenv("C35_ONLY") != "" {
+		gitSide(c, g)
+		return
 	}
 	nAdv := c.N(700, 15000)
 	for i := 0; i < nAdv; i++ {
